@@ -49,6 +49,8 @@ class Setup:
                 for vi in range(1 if lite else 2):
                     ops.append(("w", w, a, vi))
         ops.append(("reset", 0, 0, 0))  # Memory.reset(): what load_program does
+        # environment event: a simulation of the OTHER architecture is created next to this memory and used once
+        ops.append(("other", 0, 0, 0))
         self.ops = ops
 
     def fresh(self):
@@ -73,13 +75,25 @@ class Setup:
 
 def apply(setup, mem, ref, op, checks=None):
     kind, width, a, vi = op
+    if kind == "other":
+        try:
+            o = ToySimulation() if setup.arch == "riscv" else RiscvSimulation()
+            o.state.memory.write_halfword(16 if setup.arch == "riscv" else BASE + 16, fixedint.UInt16(0x77))
+            ref.setdefault("_others", []).append(o)  # stays alive next to the memory under test
+        except Exception as e:  # noqa
+            if checks is not None:
+                checks.append(("unexpected-error", f"creating a simulation of the other architecture raised {type(e).__name__}: {e}"))
+        return
     if kind == "reset":
         try:
             mem.reset()
         except Exception as e:  # noqa
             if checks is not None:
                 checks.append(("unexpected-error", f"reset() raised {type(e).__name__}: {e}"))
+        others = ref.get("_others")
         ref.clear()
+        if others:
+            ref["_others"] = others
         return
     cells = setup.cells(a, width)
     cb = setup.cell_bits
@@ -113,9 +127,9 @@ def apply(setup, mem, ref, op, checks=None):
                     break
                 new = (v >> (cb * i)) & ((1 << cb) - 1)
                 alt = ref.setdefault("_straddle", {})
-                # the cell may keep what it held (any of its earlier alternatives) or take the new value
-                alt[x] = set(alt.get(x, {ref.get(x, 0)})) | {new}
-                ref[x] = new
+                # the cell may keep what it held (any of its earlier alternatives; None = never written, reads as 0 and is
+                # not listed in the table) or take the new value
+                alt[x] = set(alt.get(x, {ref[x] if x in ref else None})) | {new}
         return
     if raised is not None:
         if checks is not None:
@@ -126,20 +140,35 @@ def apply(setup, mem, ref, op, checks=None):
         for i, x in enumerate(cells):
             ref[x] = (v >> (cb * i)) & ((1 << cb) - 1)
             ref.get("_straddle", {}).pop(x, None)
-    elif checks is not None:
+    else:
         alt = ref.get("_straddle", {})
         for i, x in enumerate(cells):
             got = (val >> (cb * i)) & ((1 << cb) - 1)
-            allowed = alt.get(x, {ref.get(x, 0)})
+            allowed = {z or 0 for z in alt[x]} if x in alt else {ref.get(x, 0)}
             if got not in allowed:
-                checks.append(("read-value", f"{opname(op)} returned {val:#x}: cell {x:#x} reads {got:#x}, expected {' or '.join(hex(z) for z in sorted(allowed))}"))
+                if checks is not None:
+                    checks.append(("read-value", f"{opname(op)} returned {val:#x}: cell {x:#x} reads {got:#x}, expected {' or '.join(hex(z) for z in sorted(allowed))}"))
                 break
+            if x in alt:
+                # old-or-new is decided by the first observation: from now on the cell holds what was seen
+                keep = {z for z in alt[x] if (z or 0) == got}
+                if len(keep) == 1:
+                    z = keep.pop()
+                    alt.pop(x)
+                    if z is None:
+                        ref.pop(x, None)
+                    else:
+                        ref[x] = z
+                else:
+                    alt[x] = keep  # 0 and never-written read alike: the table decides
 
 
 def opname(op):
     kind, width, a, vi = op
     if kind == "reset":
         return "reset()"
+    if kind == "other":
+        return "<a simulation of the other architecture is created and used>"
     return f"{(RNAME if kind == 'r' else WNAME)[width]}({a:#x}{'' if kind == 'r' else ', ' + hex(VALS[width][vi])})"
 
 
@@ -148,36 +177,58 @@ def run_history(setup, hist):
     ref = {}
     for i in hist[:-1]:
         apply(setup, mem, ref, setup.ops[i])
+        settle(setup, mem, ref, setup.ops[i], None)
     checks = []
     before = visible(setup, mem)
     op = setup.ops[hist[-1]]
     apply(setup, mem, ref, op, checks)
-    cells = setup.cells(op[2], op[1]) if op[0] != "reset" else []
-    # the public cell table after every transition: exactly the written cells with their values
-    vis = visible(setup, mem)
-    if isinstance(vis, dict):
-        alt = ref.get("_straddle", {})
-        want = {x for x in ref if x != "_straddle"} | set(alt)
-        gotv = {x: int(r[1]) for x, r in vis.items()}
-        # cells that only a faulting straddling store may have touched may be present or absent
-        optional = {x for x in alt if len(alt[x]) > 1 and 0 in alt[x] and x not in gotv}
-        if set(gotv) != want - optional:
-            checks.append(("table-cells", f"after {opname(op)} the cell table lists {sorted(gotv)[:6]}, written cells are {sorted(want)[:6]}"))
-        else:
-            for x, v in gotv.items():
-                if v not in alt.get(x, {ref.get(x, 0)}):
-                    checks.append(("table-value", f"after {opname(op)} cell {x:#x} is shown as {v:#x}, expected {' or '.join(hex(z) for z in sorted(alt.get(x, {ref.get(x, 0)})))}"))
-                    break
-    elif op[0] != "reset":
-        checks.append(("table-error", f"the cell table raised {vis[1]} after {opname(op)}"))
+    cells = setup.cells(op[2], op[1]) if op[0] not in ("reset", "other") else None
+    settle(setup, mem, ref, op, checks)
     if op[0] == "reset":
         return mem, ref, checks
     if cells is None or all(not setup.valid(x) for x in cells) or op[0] == "r":
         # an access lying entirely outside the valid range (and any read, and any unsupported access) changes nothing
         if visible(setup, mem) != before:
             checks.append(("state-changed", f"{opname(op)} changed the memory state although it "
-                           + ("is a read" if op[0] == "r" else "lies entirely outside the valid range / is unsupported")))
+                           + ("is a read" if op[0] == "r" else "does not touch this memory" if op[0] == "other" else "lies entirely outside the valid range / is unsupported")))
     return mem, ref, checks
+
+
+def settle(setup, mem, ref, op, checks):
+    """The public cell table after every transition lists exactly the written cells with their values. What it shows for
+    a cell that a faulting straddling store left 'old or new' decides that cell from now on (also along the prefix of a
+    history, where nothing is reported: every prefix is a history of its own)."""
+    vis = visible(setup, mem)
+    alt = ref.get("_straddle", {})
+    if not isinstance(vis, dict):
+        if checks is not None and op[0] != "reset":
+            checks.append(("table-error", f"the cell table raised {vis[1]} after {opname(op)}"))
+        return
+    want = ({x for x in ref if not isinstance(x, str)} - set(alt)) | {x for x in alt if None not in alt[x]}
+    gotv = {x: int(r[1]) for x, r in vis.items()}
+    # a cell that was never written before a faulting straddling store may be listed afterwards or not
+    optional = {x for x in alt if None in alt[x]}
+    ok = True
+    if set(gotv) - optional != want:
+        ok = False
+        if checks is not None:
+            checks.append(("table-cells", f"after {opname(op)} the cell table lists {sorted(gotv)[:6]}, written cells are {sorted(want)[:6]}"
+                           + (f" (optionally {sorted(optional)[:6]})" if optional else "")))
+    else:
+        for x, v in gotv.items():
+            allowed = {z for z in alt[x] if z is not None} if x in alt else {ref.get(x, 0)}
+            if v not in allowed:
+                ok = False
+                if checks is not None:
+                    checks.append(("table-value", f"after {opname(op)} cell {x:#x} is shown as {v:#x}, expected {' or '.join(hex(z) for z in sorted(allowed))}"))
+                break
+    if ok and alt:
+        for x in list(alt):
+            if x in gotv:
+                ref[x] = gotv[x]
+            else:
+                ref.pop(x, None)
+            alt.pop(x)
 
 
 def visible(setup, mem):
@@ -201,9 +252,11 @@ def expand(shard):
             p.evaluations += 1
             p.traces += 1
             op = setup.ops[oi]
-            cells = setup.cells(op[2], op[1]) if op[0] != "reset" else []
+            cells = setup.cells(op[2], op[1]) if op[0] not in ("reset", "other") else []
             if op[0] == "reset":
                 p.counters["reset"] += 1
+            elif op[0] == "other":
+                p.counters["neighbour-created"] += 1
             elif cells is not None:
                 inv = sum(1 for x in cells if not setup.valid(x))
                 if inv and inv < len(cells):
@@ -221,8 +274,8 @@ def expand(shard):
             for f, d in checks:
                 p.violation(dict(oracle="flat-memory", arch=arch, field=f), dict(kind="mem-history", arch=arch, seed=seed, lite=lite, hist=list(hist)),
                             f"{arch} memory: [{'; '.join(opname(setup.ops[i]) for i in hist)}]: {d}", size=(len(hist), hist))
-            key = digest((canon(mem), tuple(sorted((k, v) for k, v in ref.items() if k != "_straddle")),
-                          tuple(sorted((k, tuple(sorted(v))) for k, v in ref.get("_straddle", {}).items()))))
+            key = digest((canon(mem), tuple(sorted((k, v) for k, v in ref.items() if not isinstance(k, str))),
+                          tuple(sorted((k, tuple(sorted(v, key=lambda z: -1 if z is None else z))) for k, v in ref.get("_straddle", {}).items())), bool(ref.get("_others"))))
             out.append((hist, key, False))
     p.notes["out"] = out
     return p
@@ -238,20 +291,20 @@ def replay(case):
 def run(ctx):
     ctx.rule = ("BFS over histories of read/write x widths {1,2,4,8 bytes} x addresses around both ends of the valid range (aligned, unaligned, negative, "
                 ">= 2^32, straddling) on the real flat memories obtained from RiscvSimulation().state.memory and ToySimulation().state.memory, replayed on "
-                "fresh objects, deduplicated on the canonical object state. Operations include reset(). Oracle: cell dictionary with address reduction mod 2^32 (none for TOY): reads "
+                "fresh objects, deduplicated on the canonical object state. Operations include reset() and the environment event 'a simulation of the other architecture is created next to this memory and used' (part of the state key, so every history is explored with and without a neighbour). Oracle: cell dictionary with address reduction mod 2^32 (none for TOY): reads "
                 "compose the last written cells little-endian; an access touching an invalid address raises MemoryAddressError; reads and accesses entirely "
                 "outside the range leave the canonical state unchanged; byte accesses on the 16-bit-cell TOY memory raise; after every transition the public cell table lists exactly the written cells with their values. Non-trivial = read of a written "
                 "cell or straddling access.")
-    ctx.assumptions += ["for a store straddling the range boundary 'raises' is demanded and every valid cell it touches holds either its old or the new value afterwards"]
+    ctx.assumptions += ["for a store straddling the range boundary 'raises' is demanded and every valid cell it touches holds either its old or the new value afterwards; the first observation (a read or the cell table, which is looked at after every transition) decides which, and the cell must keep that value until it is written again"]
     for arch, lite, depth in (("riscv", False, 2 if ctx.quick else 3), ("riscv", True, 3 if ctx.quick else 4), ("toy", False, 3 if ctx.quick else 4), ("toy", True, 4 if ctx.quick else 6)):
         t0 = time.time()
         setup = Setup(arch, ctx.seed, lite)
         mem0 = setup.fresh()
-        key0 = digest((canon(mem0), (), ()))
+        key0 = digest((canon(mem0), (), (), False))
         res = bfs(expand, (arch, ctx.seed, lite), [key0], [()], depth, 3000000, label=f"[C18] {arch}", verbose=not ctx.quick)
         if res.stopped in ("state-cap", "time-cap"):
             ctx.exhaustive = False
         res.part.sample(dict(kind="mem-history", arch=arch, ops=[opname(setup.ops[i]) for i in (1, len(setup.ops) // 2, len(setup.ops) - 1)]))
         ctx.space(f"{arch}-memory-{'1val' if lite else '2val'}-depth{depth}", res.part, t0, operations=len(setup.ops), addresses=len(setup.addrs), depth=res.depth,
                   closed=res.closed, stopped_early=res.stopped)
-    ctx.require("straddling", "outside", "read-of-written", "wrapped-address", "unsupported", "reset")
+    ctx.require("straddling", "outside", "read-of-written", "wrapped-address", "unsupported", "reset", "neighbour-created")
